@@ -37,6 +37,50 @@ pub(super) fn detect_inheritance_cycles(ast: &Ast, diagnostics: &mut Diagnostics
     }
 }
 
+/// Checks every type alias for anonymous types that contain themselves (for example `typealias A = Sequence<A>`).
+/// Such an alias has no finite type, and every later traversal of its type would never end.
+/// Returns true if any such alias was found (and reported).
+pub(super) fn detect_type_alias_cycles(ast: &Ast, diagnostics: &mut Diagnostics) -> bool {
+    let mut found_cycle = false;
+    // Returns the address of an anonymous type (which identifies it), along with the types it's made of.
+    fn expand(type_ref: &TypeRef) -> Option<(usize, Vec<&TypeRef>)> {
+        match type_ref.concrete_type() {
+            Types::Sequence(v) => Some((v as *const Sequence as usize, vec![&v.element_type])),
+            Types::Dictionary(v) => Some((v as *const Dictionary as usize, vec![&v.key_type, &v.value_type])),
+            Types::ResultType(v) => Some((v as *const ResultType as usize, vec![&v.success_type, &v.failure_type])),
+            _ => None,
+        }
+    }
+
+    // Returns true if the anonymous type at `target` can be reached from `current` through anonymous types.
+    // `visited` ensures each anonymous type is expanded once.
+    fn find_path_to(target: usize, current: &TypeRef, visited: &mut HashSet<usize>) -> bool {
+        let Some((_, components)) = expand(current) else { return false };
+        components.into_iter().any(|component| match expand(component) {
+            Some((address, _)) => address == target || (visited.insert(address) && find_path_to(target, component, visited)),
+            None => false,
+        })
+    }
+
+    for node in ast.as_slice() {
+        let Node::TypeAlias(type_alias_ptr) = node else { continue };
+        let type_alias = type_alias_ptr.borrow();
+
+        if let Some((address, _)) = expand(&type_alias.underlying) {
+            if find_path_to(address, &type_alias.underlying, &mut HashSet::new()) {
+                Diagnostic::new(Error::SelfReferentialTypeAliasNeedsConcreteType {
+                    identifier: type_alias.module_scoped_identifier(),
+                })
+                .set_span(type_alias.span())
+                .add_note("failed to resolve type due to a cycle in its definition", None)
+                .push_into(diagnostics);
+                found_cycle = true;
+            }
+        }
+    }
+    found_cycle
+}
+
 pub(super) fn detect_cycles(ast: &Ast, diagnostics: &mut Diagnostics) {
     let mut cycle_detector = CycleDetector {
         type_being_checked: None,
